@@ -452,7 +452,7 @@ def check_c13(res, tier, replay):
             if rng.random() < 0.25 and not ({'kdjA', 'kdjB'} <= set(ss)):
                 ss = [x for x in ss if x not in ('kdjA', 'kdjB')] + ['kdjA', 'kdjB']     # two strategies of the same name in one run
                 rng.shuffle(ss)
-            cases.append((rng.choice([1, 2, 3, 4, 8, 16]), rng.choice(['rec', 'data', 'html', 'html', 'htmlbad']), rng.choice([20, 45, 365, 150000]), ','.join(ss),
+            cases.append((rng.choice([1, 2, 3, 4, 8, 16]), rng.choice(['rec', 'data', 'html', 'html', 'htmlbad']), rng.choice([20, 45, 365, 150000, 0, 1]), ','.join(ss),
                           rng.randrange(1 << 30), rng.randrange(1, 9), rng.choice([15, 40, 70])))
     lines = ['b%d BT %s' % (i, ' '.join(map(str, c))) for i, c in enumerate(cases)]
     go = vlib.run_go(lines, nproc=4)
@@ -525,7 +525,7 @@ def gen_csv_doc(rng, header):
     else:
         n = rng.choice([4, 4, 4, 3, 5, 1])
     for _ in range(rng.randrange(0, 6)):
-        vals = [rng.choice(['abc', '"q,x"', '', 'z']), str(rng.choice([0, -5, 12, 2**40, 'x', '1.5'])),
+        vals = [rng.choice(['abc', '"q,x"', '', 'z']), str(rng.choice([0, -5, 12, 2**40, 'x', '1.5', '007', '010', '-08', '+9', '0x1F', '1_000', '0b11', '0o17'])),
                 str(rng.choice([1.5, -2, '1e10', 'nanx', 'Inf', ''])), rng.choice(['true', 'false', '1', 'T', 'yes', ''])]
         vals = (vals + ['e'] * 3)[:n]
         if rng.random() < 0.25:      # a cell padded with white space: not a number / boolean as written
@@ -594,8 +594,11 @@ def check_c19(res, tier, replay):
             body = ('[' + ','.join(elems) + ']').encode()
             if r > 0.6:
                 body = mutate(rng, body)
-            elif 0.3 <= r < 0.36:
-                body = rng.choice([b'null', b'[null', b'[null]', b'{}', b'', b'[[', b'"[]"'])
+            elif 0.3 <= r < 0.42:
+                # a top-level value that is not an array (what a gateway or a rate limiter answers with), mostly under status 200
+                body = rng.choice([b'null', b'[null', b'[null]', b'{}', b'', b'[[', b'"[]"', b'42', b'true', b'"rate limit exceeded"', b'{"detail":"not found"}', b'-1.5e3'])
+                if rng.random() < 0.7:
+                    status = 200
             lines.append('m%d TIINGO %d %s' % (len(lines), status, binascii.hexlify(body).decode() or '20'))
     go = vlib.run_go(lines)
     # a crash (panic in a library goroutine) loses a whole chunk: re-run unanswered cases one by one
